@@ -27,7 +27,14 @@ class App:
     def __eq__(self, other):
         if self is other:
             return True
-        return type(other) is type(self) and hash(self) == hash(other) and self._key() == other._key()
+        if type(other) is not type(self):
+            return False
+        try:
+            if hash(self) != hash(other):
+                return False
+        except TypeError:       # a term over an unhashable value (a list, a dict): compared structurally
+            pass
+        return self._key() == other._key()
 
     def __reduce__(self):
         return (type(self), (self.f, self.pos, self.kw))
